@@ -19,9 +19,18 @@ Definition ho_receipts_handler_delete_calls : nat := 1.
 Definition ho_receipts_handler_plain_sends : nat := 1.
 Definition ho_receipts_yields : list bytes := [hex "72656365697074732e6e6f746966792e6265666f7265"; hex "72656365697074732e6e6f746966792e6166746572"; hex "72656365697074732e72656769737465726564"; hex "72656365697074732e73656e64657272"; hex "72656365697074732e776169742e6265666f7265"; hex "72656365697074732e637478646f6e65"]. (* receipts.notify.before receipts.notify.after receipts.registered receipts.senderr receipts.wait.before receipts.ctxdone *)
 Definition ho_muc_join_capacity : nat := 1.
-Definition ho_muc_depart_capacity : nat := 0.
+Definition ho_muc_depart_capacity : nat := 1.
 Definition ho_muc_depart_send_nonblocking : bool := true.
-Definition ho_ibb_readready_capacity : nat := 0.
-Definition ho_ibb_read_loops : nat := 0.
+Definition ho_muc_leave_drains_stale : nat := 1.
+Definition ho_muc_leave_waits_for_depart : nat := 1.
+Definition ho_muc_yields : list bytes := [hex "6d75632e70726573656e63652e6a6f696e2e74616b656e"; hex "6d75632e70726573656e63652e6465706172742e6265666f7265"; hex "6d75632e6a6f696e2e707573682e6265666f7265"; hex "6d75632e6a6f696e2e776169742e6265666f7265"; hex "6d75632e6c656176652e776169742e6265666f7265"]. (* muc.presence.join.taken muc.presence.depart.before muc.join.push.before muc.join.wait.before muc.leave.wait.before *)
+Definition ho_ibb_readready_capacity : nat := 1.
+Definition ho_ibb_read_loops : nat := 1.
+Definition ho_ibb_read_tests_channel_open : bool := true.
 Definition ho_ibb_notify_nonblocking : bool := true.
-Definition ho_ibb_local_close_unregisters : bool := false.
+Definition ho_ibb_payload_holds_lock_to_return : bool := true.
+Definition ho_ibb_payload_tests_closed_under_lock : bool := true.
+Definition ho_ibb_close_unregisters : bool := true.
+Definition ho_ibb_close_under_read_lock : bool := true.
+Definition ho_ibb_both_closes_use_closeread : bool := true.
+Definition ho_ibb_yields : list bytes := [hex "6962622e726561642e636865636b6564"; hex "6962622e726561642e776f6b656e"; hex "6962622e7061796c6f61642e6c6f636b6564"]. (* ibb.read.checked ibb.read.woken ibb.payload.locked *)
